@@ -227,7 +227,16 @@ void run_width(const Case &c, pbt::Ctx &ctx) {
                     x = '(';
                 }
             }
-            Units p2 = cat({phrase, ascii("|{0}|{1}|")});
+            // (in the 2- and 4-byte builds the phrase ends with braces around units whose low byte is a digit: U+0130, U+4E31, U+1F630 - text,
+            // not placeholders)
+            Units extra;
+            if (sizeof(Char_T) > 1) {
+                extra = {'{', 0x0130, '}', '{', 0x4E31, '}'};
+                if (sizeof(Char_T) == 4) {
+                    extra.insert(extra.end(), {'{', 0x1F630, '}'});
+                }
+            }
+            Units p2 = cat({phrase, ascii("|{0}|{1}|"), extra});
             Value<Char_T>   v;
             jm::Buf<Char_T> pb(ascii("p")), kb(ascii("k"));
             v[StringView<Char_T>{pb.cp(), 1}] = mk<Char_T>(p2);
@@ -235,7 +244,7 @@ void run_width(const Case &c, pbt::Ctx &ctx) {
             Units out = render<Char_T>(ascii("{svar:p, {var:k}, {raw:k}}"), v);
             // expected shape: esc(phrase) | esc(s) | s |
             // find the last three bars from the right, knowing s (raw) sits between the last two
-            Units tail = cat({ascii("|"), s, ascii("|")});
+            Units tail = cat({ascii("|"), s, ascii("|"), extra});
             if (out.size() < tail.size() || !std::equal(tail.begin(), tail.end(), out.end() - long(tail.size()))) {
                 ctx.fail("svar-raw-subtag", "{raw:} sub-tag of {svar:} is not verbatim at the end: " + jm::show(out));
             }
